@@ -294,6 +294,27 @@ def check(chk, repo, tier):
         mod = repo.mod(modname)
         short_mod = modname.split(".")[-1]
         for n in ast.walk(mod.tree):
+            if isinstance(n, ast.Name) and n.id in EVAL_NAMES \
+                    and isinstance(n.ctx, ast.Load) and not (
+                    isinstance(getattr(n, "_parent", None), ast.Call)
+                    and n._parent.func is n):
+                # the evaluator is used as a value (`reader = eval`): whatever
+                # is called through it is unknown text, so the place where it
+                # is selected must be offline
+                n_sites += 1
+                fn = enclosing_function(n)
+                while isinstance(fn, ast.Lambda):
+                    fn = enclosing_function(fn)
+                qual = f"{short_mod}.{fn.name if fn is not None else '<module>'}"
+                cons = f"{qual}:{n.id} used as a value"
+                pol = -1 if offline_everywhere(n, all_mods) else online_at(n)
+                chk.ob("C19.usertext-eval-guarded", cons,
+                       pol == -1 or qual in OFFLINE_ONLY,
+                       f"`{n.id}` is selected as a callable where the mode "
+                       "is not known to be offline; text called through it "
+                       "is evaluated", mod.rel, n.lineno,
+                       sample={"site": cons, "guard": pol})
+                continue
             if not isinstance(n, ast.Call):
                 continue
             d = dotted(n.func) or ""
@@ -331,21 +352,11 @@ def check(chk, repo, tier):
                        sample={"site": cons, "class": cls, "guard": pol})
     chk.floor("dynamic-evaluation sites in vyxal/*.py", n_sites, 9)
 
-    # literal_eval is the only evaluator in vy_eval's online arm
+    # vy_eval, online: a model of the function itself (any code shape)
     helpers = repo.mod("helpers")
     ve = helpers.function("vy_eval")
-    online_arm_calls = []
-    for arm in online_arms(ve):
-        for n in ast.walk(ast.Module(body=arm, type_ignores=[])):
-            if isinstance(n, ast.Call):
-                online_arm_calls.append(dotted(n.func) or "")
     online_arm_taint(chk, helpers, ve)
-    chk.ob("C19.vy_eval-online-literal-only", "helpers.vy_eval/online arm",
-           "ast.literal_eval" in online_arm_calls and not any(
-               c in EVAL_NAMES for c in online_arm_calls),
-           "the online arm of vy_eval no longer evaluates through "
-           "ast.literal_eval only", helpers.rel, ve.lineno,
-           sample=online_arm_calls)
+    vy_eval_model(chk, repo, helpers, ve)
 
     # ---- (E) in templates -----------------------------------------------------------
     elems = gen.elements()
@@ -467,6 +478,8 @@ def check(chk, repo, tier):
            "vy_print's online arm no longer appends to ctx.online_output",
            repo.mod("elements").rel, vp.lineno, sample="online_output[1] +=")
 
+    mode_context_threaded(chk, repo, pkg, elems)
+
     # ---- (R) error capture in execute_vyxal ------------------------------------------------
     main = repo.mod("main")
     ex = main.function("execute_vyxal")
@@ -501,6 +514,282 @@ CLEANERS = {"ast.literal_eval", "int", "len", "sympy.Rational",
             "fractions.Fraction", "Fraction", "isinstance", "type", "bool",
             "re.match", "re.fullmatch", "re.search", "re.findall", "ord"}
 TEXT_OK = {"str", "repr", "print"}  # keep the text a string
+
+
+def _ctx_param(fn):
+    """default of the parameter named ctx: an ast node, "REQUIRED", or None
+    when there is no such parameter"""
+    a = fn.args
+    params = a.posonlyargs + a.args
+    for i, p in enumerate(params):
+        if p.arg == "ctx":
+            di = i - (len(params) - len(a.defaults))
+            return i, (a.defaults[di] if di >= 0 else "REQUIRED")
+    for p, d in zip(a.kwonlyargs, a.kw_defaults):
+        if p.arg == "ctx":
+            return None, (d if d is not None else "REQUIRED")
+    return None
+
+
+def mode_context_threaded(chk, repo, pkg, elems):
+    """`not ctx.online` only contains a program if the ctx consulted is the
+    running program's.  Functions whose behaviour depends on the mode (they
+    test ctx.online or write to the host) must be handed the caller's own
+    context: not a module-level default context, and not by omission when the
+    parameter defaults to one."""
+    # module-level names bound to a context object
+    default_ctx = set()
+    for modname in pkg:
+        for st in repo.mod(modname).tree.body:
+            if isinstance(st, ast.Assign) and isinstance(st.value, ast.Call) \
+                    and (dotted(st.value.func) or "").split(".")[-1] == \
+                    "Context":
+                default_ctx |= {t.id for t in st.targets
+                                if isinstance(t, ast.Name)}
+    sensitive = {}
+    for modname in pkg:
+        mod = repo.mod(modname)
+        for fn in ast.walk(mod.tree):
+            if not isinstance(fn, ast.FunctionDef):
+                continue
+            hit = False
+            for n in ast.walk(fn):
+                if isinstance(n, (ast.If, ast.IfExp)) and online_test(n.test):
+                    hit = True
+                if isinstance(n, ast.Call) and (
+                        isinstance(n.func, ast.Name) and n.func.id == "print"
+                        or (dotted(n.func) or "") in OUTPUT_DOTTED):
+                    hit = True
+            if hit and _ctx_param(fn) is not None:
+                sensitive[fn.name] = (mod, fn)
+    # forwarders one level up: methods/functions that hand their ctx on
+    for modname in pkg:
+        mod = repo.mod(modname)
+        for fn in ast.walk(mod.tree):
+            if isinstance(fn, ast.FunctionDef) and fn.name == "output" \
+                    and _ctx_param(fn) is not None:
+                sensitive.setdefault(fn.name, (mod, fn))
+    if "vy_print" not in sensitive or "vy_eval" not in sensitive:
+        raise AnalysisError("anchor vanished: vy_print / vy_eval no longer "
+                            "depend on ctx.online")
+    roots = {"execute_vyxal", "repl", "cli"}
+
+    def judge(call, callee, where, rel, line):
+        cp = _ctx_param(sensitive[callee][1])
+        idx, default = cp
+        is_method = isinstance(call.func, ast.Attribute) and callee == "output"
+        arg = None
+        for k in call.keywords:
+            if k.arg == "ctx":
+                arg = k.value
+        if arg is None and idx is not None:
+            pos = idx - (1 if is_method else 0)
+            if 0 <= pos < len(call.args):
+                arg = call.args[pos]
+        cons = f"{where}:{' '.join(ast.unparse(call).split())[:60]}"
+        if arg is None:
+            bad = default != "REQUIRED" and not (
+                isinstance(default, ast.Constant) and default.value is None)
+            chk.ob("C19.mode-context-threaded", cons, not bad,
+                   f"`{callee}` is called without a context and its ctx "
+                   f"parameter defaults to `{ast.unparse(default) if bad else ''}`"
+                   ", a module-level context that is never online: online, "
+                   "the offline behaviour (host stdout / eval) is taken", rel,
+                   line, witness="online: λ`x`;,  (print a function value)")
+            return
+        named = dotted(arg) or ""
+        bad = named.split(".")[-1] in default_ctx or (
+            isinstance(arg, ast.Call)
+            and (dotted(arg.func) or "").split(".")[-1] == "Context")
+        chk.ob("C19.mode-context-threaded", cons, not bad,
+               f"`{callee}` is handed `{ast.unparse(arg)}`, not the running "
+               "program's context: its mode flag is never online", rel, line)
+
+    n = 0
+    for modname in pkg:
+        mod = repo.mod(modname)
+        for call in ast.walk(mod.tree):
+            if not isinstance(call, ast.Call):
+                continue
+            if isinstance(call.func, ast.Name):
+                callee = call.func.id
+            elif isinstance(call.func, ast.Attribute):
+                callee = call.func.attr
+                base = dotted(call.func.value) or ""
+                if callee != "output" and not base.startswith("vyxal"):
+                    continue
+            else:
+                continue
+            if callee not in sensitive or callee in roots:
+                continue
+            fn = enclosing_function(call)
+            while isinstance(fn, ast.Lambda):
+                fn = enclosing_function(fn)
+            where = f"{modname.split('.')[-1]}." + (fn.name if fn else "<module>")
+            n += 1
+            judge(call, callee, where, mod.rel, call.lineno)
+    EF = repo.mod("elements").rel
+    for key, knode, _ in table_keys_with_nodes(repo, "elements"):
+        val = elems.get(key)
+        if not (isinstance(val, tuple) and isinstance(val[0], str)):
+            continue
+        try:
+            tree = ast.parse(val[0])
+        except SyntaxError:
+            continue
+        for call in ast.walk(tree):
+            if isinstance(call, ast.Call) and isinstance(call.func, ast.Name) \
+                    and call.func.id in sensitive \
+                    and call.func.id not in roots:
+                n += 1
+                judge(call, call.func.id, f"elements[{key!r}]", EF,
+                      knode.lineno)
+    chk.unit("calls of mode-dependent functions examined", n)
+    chk.floor("calls of mode-dependent functions examined", n, 15)
+
+
+MARK = "__import__('os').system('pwn')"
+LITERAL_PARSERS = {"ast.literal_eval", "json.loads", "int", "float"}
+INJECTED = ("ValueError", "SyntaxError", "TypeError", "RecursionError",
+            "MemoryError", "AttributeError")
+
+
+class _Recorder:
+    """Stand-in for everything vy_eval can reach outside the package: logs
+    the call, then returns / raises what the scenario says."""
+
+    def __init__(self, log, behave):
+        self.log = log
+        self.behave = behave
+
+    def fn(self, name):
+        def call(*args, **kwargs):
+            from ..pe import PRaise
+            self.log.append((name, args))
+            act = self.behave.get(name)
+            if act is None:
+                return f"<result of {name}>"
+            if act[0] == "raise":
+                raise PRaise(act[1], (f"injected into {name}",))
+            return act[1]
+        call.__name__ = name
+        return call
+
+
+def vy_eval_model(chk, repo, helpers, ve):
+    """The current source of vy_eval is interpreted with ctx.online true on a
+    marked text.  Everything outside the package (ast, sympy, json, the
+    builtins eval/exec/compile) and vyxalify are recorders.  Decided:
+    (1) the text reaches no evaluator - only literal parsers and str methods;
+    (2) whatever a callee raises, vy_eval returns (the input stage of
+        execute_vyxal is outside every try);
+    (3) text the literal parser rejects is kept as the string it was."""
+    from ..pe import Interp, PRaise, StubModule, Unsupported
+
+    class RecModule(StubModule):
+        def __init__(self, name, rec):
+            super().__init__(name, {})
+            self.rec = rec
+
+        def get(self, attr):
+            return self.rec.fn(f"{self._name}.{attr}")
+
+    def run(behave):
+        log = []
+        rec = _Recorder(log, behave)
+        it = Interp(repo)
+        for ext in ("ast", "sympy", "json", "os", "subprocess", "importlib",
+                    "builtins", "itertools", "math", "functools"):
+            it.stubs[ext] = RecModule(ext, rec)
+        for b in ("eval", "exec", "compile", "__import__"):
+            it.builtins[b] = rec.fn(b)
+        it.intercepts[("vyxal.helpers", "vyxalify")] = \
+            lambda fn, args, kwargs: rec.fn("vyxalify")(*args)
+        hp = it.module("vyxal.helpers")
+        try:
+            Context = it.module("vyxal.context").get("Context")
+            ctx = it.instantiate(Context, [], {})
+            f = hp.get("vy_eval")
+        except KeyError as exc:
+            raise AnalysisError(f"anchor vanished: {exc}") from None
+        ctx.d["online"] = True
+        try:
+            return ("returned", f(MARK, ctx)), log
+        except PRaise as exc:
+            return ("raised", f"{exc.cls_name}{exc.pargs}"), log
+        except Unsupported as exc:
+            raise AnalysisError(
+                f"vy_eval uses a construct the interpreter does not model: "
+                f"{exc}") from None
+
+    nominal = {
+        "literal is an int": {"ast.literal_eval": ("return", 5),
+                              "vyxalify": ("return", 5)},
+        "literal is a float": {"ast.literal_eval": ("return", 1.5),
+                               "vyxalify": ("return", "<number>")},
+        "literal is None": {"ast.literal_eval": ("return", None),
+                            "vyxalify": ("return", None)},
+        "literal is a list": {"ast.literal_eval": ("return", [1, [2.5]]),
+                              "vyxalify": ("return", [1])},
+    }
+    callees = set()
+    n_runs = 0
+    for label, behave in nominal.items():
+        (how, val), log = run(behave)
+        n_runs += 1
+        callees |= {name for name, _ in log}
+        for name, args in log:
+            tainted = any(MARK in repr(a) for a in args)
+            evaluator = name in ("eval", "exec", "compile", "__import__")
+            bad = evaluator or (tainted and name not in LITERAL_PARSERS)
+            chk.ob("C19.online-no-evaluation",
+                   f"helpers.vy_eval online -> {name}", not bad,
+                   f"with ctx.online true, vy_eval hands "
+                   f"{'the user text' if tainted else 'a value'} to `{name}` "
+                   f"(scenario: {label}): only literal parsers may see "
+                   "user text online", helpers.rel, ve.lineno,
+                   witness=f"input {MARK}",
+                   sample={"scenario": label, "callee": name})
+        chk.ob("C19.vy_eval-total", f"helpers.vy_eval online/{label}",
+               how == "returned",
+               f"vy_eval raises {val} (scenario: {label}); execute_vyxal "
+               "parses inputs outside every try, so the error propagates to "
+               "the caller with an empty error record", helpers.rel,
+               ve.lineno)
+    if "ast.literal_eval" not in callees and not (
+            callees & LITERAL_PARSERS):
+        chk.info("C19.online-no-evaluation", "helpers.vy_eval",
+                 "online, the text is not parsed at all (kept as string)")
+    # fault injection: each callee raises in turn
+    for name in sorted(callees):
+        for cls in INJECTED:
+            for label, behave in list(nominal.items())[:2]:
+                b2 = dict(behave)
+                b2[name] = ("raise", cls)
+                (how, val), log = run(b2)
+                n_runs += 1
+                cons = f"helpers.vy_eval online/{name} raises"
+                chk.ob("C19.vy_eval-total", cons, how == "returned",
+                       f"when `{name}` raises {cls} ({label}) vy_eval lets it "
+                       "propagate: input parsing runs outside every try of "
+                       "execute_vyxal, so the caller gets an exception and "
+                       "an empty error record", helpers.rel, ve.lineno,
+                       witness="online input `None`, `[1, None]` or `1e999`",
+                       sample={"callee": name} if cls == "TypeError" else None)
+                if how == "returned" and name in LITERAL_PARSERS:
+                    chk.ob("C19.rejected-text-kept-as-string",
+                           f"helpers.vy_eval online/{name} rejects", val == MARK,
+                           f"text the literal parser rejects comes back as "
+                           f"{val!r} instead of the unchanged string",
+                           helpers.rel, ve.lineno)
+                    if any(n2 in ("eval", "exec", "compile") for n2, _ in log):
+                        chk.ob("C19.online-no-evaluation",
+                               "helpers.vy_eval online -> eval after reject",
+                               False, "text rejected by the literal parser is "
+                               "then handed to eval/exec/compile",
+                               helpers.rel, ve.lineno, witness=f"input {MARK}")
+    chk.unit("vy_eval model runs (interpreted)", n_runs)
+    chk.floor("vy_eval model runs (interpreted)", n_runs, 4)
 
 
 def online_arms(fn):
